@@ -7,6 +7,7 @@ Local Open Scope N_scope.
 
 Section Grouped.
   Variable cfg : ecfg.
+  Variable fe : fenv.
   Variable rules : list rule.
   Variable get_data : ustr -> list ustr -> result frame.
   Variable lab : rule -> label.            (* the mapping_partition column, whatever algorithm produced it *)
@@ -16,7 +17,7 @@ Section Grouped.
   Definition group_of_label (l : label) : list rule := filter (fun r => label_eqb (lab r) l) asserted_rules.
   (* _materialize_mapping_group_to_set *)
   Definition group_triples (g : list rule) : result (list ustr) :=
-    rdo ls <- rmap_all (rule_triples cfg rules get_data) g; Ok (dedup (concat ls)).
+    rdo ls <- rmap_all (rule_triples cfg fe rules get_data) g; Ok (dedup (concat ls)).
   Definition groups_results : result (list (list ustr)) := rmap_all group_triples (map group_of_label group_labels).
   Definition materialize_grouped : result (list ustr) :=
     rdo gs <- groups_results; Ok (dedup (concat gs)).
